@@ -208,6 +208,7 @@ func main() {
 			"the Time fields of created CRLs are additionally compared with the encoding RFC 5280 5.1.2.4-5.1.2.6 prescribes (UTCTime..2049 / GeneralizedTime 2050.., Zulu, whole seconds), read with encoding/asn1",
 			"key kind and SignatureAlgorithm form one joint field 'signer' whose alternatives are ALL 6x18 (key kind, algorithm) pairs: which pairs are accepted is observed, not assumed",
 			"entry lists are compared as multisets of (serial, time, reason, extensions) tuples; order preservation is reported as an outcome class",
+			"CSR extensions are compared with their Critical flag; only when the (deprecated) template.Attributes already holds an extensionRequest attribute, into whose flag-less AttributeTypeAndValue list ExtraExtensions are merged, kept/dropped are both accepted and counted",
 		)
 
 		// VERIF_SEED only rotates the execution order
